@@ -226,6 +226,103 @@ def run_stock_case(cls, lt, solver, arr, proc, time_letter):
     return "matches-definition", None
 
 
+def run_two_stocks_case(cls, lt, solver):
+    """two stock definitions of the same class, lifetime class and dims: two stocks, each with ITS OWN arrays and
+    lifetime model (parameters given to one do not reach the other)"""
+    import flodym
+    from flodym import MFADefinition, StockDefinition
+
+    case = dict(kind="two-stocks", cls=cls, lt=lt, solver=solver)
+
+    def fail(what):
+        return "fail", dict(case=case, tags=dict(kind="two-stocks", cls=cls), what=f"two stock definitions class={cls} lifetime={lt} solver={solver} over (t,p): {what}")
+
+    def build():
+        sds = []
+        for nm, proc in (("first", "use"), ("second", "sysenv"), ("third", "use")):
+            kw = dict(name=nm, dim_letters=("t", "p"), subclass=getattr(flodym, cls), process=proc)
+            if lt is not None:
+                kw["lifetime_model_class"] = getattr(flodym, lt)
+            if solver is not None:
+                kw["solver"] = solver
+            sds.append(StockDefinition(**kw))
+        defn = MFADefinition(dimensions=dimdefs("tpq"), processes=["sysenv", "use"], flows=[], stocks=sds, parameters=[])
+        return flodym.MFASystem.from_data_reader(defn, mem_reader())
+
+    st, mfa = attempt(build)
+    if st == "raised":
+        return fail(f"raised {mfa}")
+    if list(mfa.stocks) != ["first", "second", "third"]:
+        return fail(f"stocks {list(mfa.stocks)}")
+    ss = list(mfa.stocks.values())
+    for a, b in itertools.combinations(range(3), 2):
+        if ss[a] is ss[b]:
+            return fail("two definitions share one stock object")
+        for nm in ("stock", "inflow", "outflow"):
+            if getattr(ss[a], nm) is getattr(ss[b], nm) or np.shares_memory(getattr(ss[a], nm).values, getattr(ss[b], nm).values):
+                return fail(f"stocks '{ss[a].name}' and '{ss[b].name}' share their {nm} array")
+        if lt is not None and ss[a].lifetime_model is ss[b].lifetime_model:
+            return fail(f"stocks '{ss[a].name}' and '{ss[b].name}' hold the SAME lifetime model object (parameters set for one would apply to the other)")
+    if lt is not None:
+        names = {"FixedLifetime": ["mean"], "WeibullLifetime": ["weibull_shape", "weibull_scale"]}.get(lt, ["mean", "std"])
+        st2, info = attempt(lambda: ss[0].lifetime_model.set_prms(**{n: 2.5 for n in names}))
+        if st2 == "raised":
+            return fail(f"set_prms on the first stock's lifetime model raised {info}")
+        for other in ss[1:]:
+            if any(v is not None for v in other.lifetime_model.prms.values()):
+                return fail(f"parameters set for stock 'first' appeared in the lifetime model of stock '{other.name}'")
+    return "matches-definition", None
+
+
+def run_reader_reuse_case(fmt, second):
+    """ONE compound reader object used for two different definitions: the second system follows ITS definition"""
+    import flodym
+    from flodym import DimensionDefinition, MFADefinition, ParameterDefinition
+
+    case = dict(kind="reader-reuse", fmt=fmt, second=second)
+
+    def fail(what):
+        return "fail", dict(case=case, tags=dict(kind="reader-reuse", fmt=fmt), what=f"one CompoundDataReader ({fmt} files) used for two definitions, the second declaring {second}: {what}")
+
+    tmp = tempfile.mkdtemp(prefix="c18_", dir="/dev/shm" if os.path.isdir("/dev/shm") else None)
+    try:
+        ext = "csv" if fmt == "csv" else "xlsx"
+        files = {}
+        items = {"Time": [2001, 2000, 2002], "Code": ["10", "9", "8"]}
+        for nm, its in items.items():
+            path = os.path.join(tmp, f"dim_{nm}.{ext}")
+            write_dim_file(path, fmt, "column", False, nm, its, "single")
+            files[nm] = path
+        if fmt == "csv":
+            dr, pr = flodym.CSVDimensionReader(dimension_files=files), flodym.CSVParameterReader(parameter_files={})
+        else:
+            dr, pr = flodym.ExcelDimensionReader(dimension_files=files), flodym.ExcelParameterReader(parameter_files={})
+        reader = flodym.CompoundDataReader(dimension_reader=dr, parameter_reader=pr)
+        d1 = [DimensionDefinition(name="Time", letter="t", dtype=int), DimensionDefinition(name="Code", letter="c", dtype=str)]
+        code2 = dict(letter=DimensionDefinition(name="Code", letter="k", dtype=str), dtype=DimensionDefinition(name="Code", letter="c", dtype=int), both=DimensionDefinition(name="Code", letter="k", dtype=int))[second]
+        d2 = [DimensionDefinition(name="Time", letter="t", dtype=int), code2]
+        def both():
+            m1 = flodym.MFASystem.from_data_reader(MFADefinition(dimensions=d1, processes=["sysenv", "use"], flows=[], stocks=[], parameters=[]), reader)
+            m2 = flodym.MFASystem.from_data_reader(MFADefinition(dimensions=d2, processes=["sysenv", "use"], flows=[flodym.FlowDefinition(from_process="sysenv", to_process="use", dim_letters=("t", code2.letter))], stocks=[], parameters=[]), reader)
+            return m1, m2
+        st, got = attempt(both)
+    finally:
+        shutil.rmtree(tmp, ignore_errors=True)
+    if st == "raised":
+        return fail(f"raised {got}")
+    m1, m2 = got
+    if [(d.letter, list(d.items)) for d in m1.dims] != [("t", [2001, 2000, 2002]), ("c", ["10", "9", "8"])]:
+        return fail(f"first system has dimensions {[(d.letter, d.items) for d in m1.dims]}")
+    want_items = ["10", "9", "8"] if code2.dtype is str else [10, 9, 8]
+    have = [(d.letter, list(d.items)) for d in m2.dims]
+    if have != [("t", [2001, 2000, 2002]), (code2.letter, want_items)] or any(type(i) is not code2.dtype for i in m2.dims[code2.letter].items):
+        return fail(f"second system has dimensions {have}, its definition gives {[('t', [2001, 2000, 2002]), (code2.letter, want_items)]}")
+    f = list(m2.flows.values())[0]
+    if tuple(f.dims.letters) != ("t", code2.letter) or list(f.dims[code2.letter].items) != want_items:
+        return fail("the flow of the second system is not over the second definition's dimensions")
+    return "system-matches", None
+
+
 def run_invalid_case(which):
     import flodym
     from flodym import FlowDefinition, MFADefinition, ParameterDefinition, StockDefinition
@@ -312,7 +409,7 @@ def write_dim_file(path, fmt, orient, header, name, items, sheets):
         return "the dims"
 
 
-ITEM_LISTS = {int: [[2005], [2001, 1999], [3, 1, 2], [2020, 2030, 2025], [7, 2000, 5]], str: [["only"], ["b", "a"], ["x y", "z", "w"], ["10", "9", "8"], ["steel", "316", "copper"]]}  # last str list: a text item first, then a number-like one
+ITEM_LISTS = {int: [[2005], [2001, 1999], [3, 1, 2], [2020, 2030, 2025], [7, 2000, 5], [5, 4, 3, 2, 1, 0]], str: [["only"], ["b", "a"], ["x y", "z", "w"], ["10", "9", "8"], ["steel", "316", "copper"], ["north", "Region", "south"]]}  # last str list: a text item first, then a number-like one
 
 
 def run_dimfile_case(fmt, orient, header, dtype_name, li, sheets):
@@ -502,6 +599,11 @@ def run_unit(u):
                             if tl == "y" and arr not in ("yp", "ty", "yt", "tp"):
                                 continue
                             rec(*run_stock_case(cls, lt, solver, arr, proc, tl))
+        for lt in [None] + LIFETIMES:
+            for solver in (None, "lapack"):
+                if (lt is None) != (cls == "SimpleFlowDrivenStock") or (solver and cls != "StockDrivenDSM"):
+                    continue
+                rec(*run_two_stocks_case(cls, lt, solver))
     elif k == "params":
         arrs = ["".join(p) for n in range(0, 4) for p in itertools.permutations("tpq", n)]
         for a in arrs:
@@ -515,7 +617,7 @@ def run_unit(u):
     elif k == "dimfiles":
         for header in (False, True):
             for dt in ("int", "str"):
-                for li in range(5):
+                for li in range(6):  # (the last text list holds the dimension's own name as an item)
                     for sheets in (("single",) if u["fmt"] == "csv" else ("single", "first-of-several", "named-second")):
                         rec(*run_dimfile_case(u["fmt"], u["orient"], header, dt, li, sheets))
         if u["fmt"] == "excel" and u["orient"] == "row":
@@ -525,6 +627,8 @@ def run_unit(u):
             for header in (False, True):
                 for flags in ((False, False), (True, False), (False, True), (True, True)):
                     rec(*run_system_files_case(u["fmt"], sheets_named, header, flags))
+        for second in ("letter", "dtype", "both"):
+            rec(*run_reader_reuse_case(u["fmt"], second))
     return res
 
 
@@ -540,6 +644,10 @@ def replay(case):
         oc, f = run_params_case(case["plist"])
     elif k == "dimfile":
         oc, f = run_dimfile_case(case["fmt"], case["orient"], case["header"], case["dtype"], case["li"], case["sheets"])
+    elif k == "two-stocks":
+        oc, f = run_two_stocks_case(case["cls"], case["lt"], case["solver"])
+    elif k == "reader-reuse":
+        oc, f = run_reader_reuse_case(case["fmt"], case["second"])
     else:
         oc, f = run_system_files_case(case["fmt"], case["sheets_named"], case["header"], tuple(case["flags"]))
     return [f] if f else []
